@@ -188,7 +188,8 @@ def run(ctx):
 		exts = ['.fasta', '.fna', '.ffn', '.faa', '.frn', '.fa', '.gz', '.fastq', '.FA', 'fa', 'fasta', '_fa', '.f', '.fas', '']
 		for j in range(ctx.q(1500, 20000)):
 			stem = ''.join(rng.choice(alpha) for _ in range(rng.randint(0, 7)))
-			name = stem + rng.choice(exts) + rng.choice(['', '', '.gz', 'gz', '.gz.gz'])
+			# stacked extensions in either order (`x.fna.fasta`, `x.fa.fna.gz`): exactly one is stripped, the last one
+			name = stem + (rng.choice(exts[:6]) if rng.random() < 0.35 else '') + rng.choice(exts) + rng.choice(['', '', '.gz', 'gz', '.gz.gz'])
 			if rng.random() < 0.3:
 				name = ''.join(rng.choice(alpha + '/') for _ in range(rng.randint(0, 5))) + '/' + name
 			if not name or name.endswith('/'):
